@@ -1249,6 +1249,14 @@ def main():
 
     gen("Lib.v", lib)
 
+    def iterv():
+        import iter2v
+        text, errs = iter2v.generate(toks("src/iter.rs"))
+        errors.extend("Iter.v: " + e for e in errs)
+        return text
+
+    gen("Iter.v", iterv)
+
     coqdir = os.path.dirname(os.path.abspath(outdir))
 
     def hand(name):
